@@ -149,7 +149,7 @@ def check(case: Dict[str, Any]) -> Outcome:
 
     out = Outcome()
     ops: List[List[Any]] = case["ops"]
-    flags = {"batch_after_mode_change": False, "mixed_batch": False, "stalled_window": False, "rejection_behind_full_queue": False, "version_by_handshake": False, "handshake_across_cutoff": False, "version_switch_racing_a_batch": False}
+    flags = {"batch_after_mode_change": False, "mixed_batch": False, "stalled_window": False, "rejection_behind_full_queue": False, "version_by_handshake": False, "handshake_across_cutoff": False, "version_switch_racing_a_batch": False, "per_request_stream_registered": False}
 
     async def main() -> None:
         procs: List[FakeProcess] = []
@@ -330,6 +330,13 @@ def check(case: Dict[str, Any]) -> Outcome:
                         members = [_member(s) for s in op[1]]
                         payload = members
                         is_batch = True
+                        if len(op) > 2 and op[2]:
+                            # the application has per-request streams registered for some of the ids answered in this
+                            # batch: those members take another route inside the client, the read stream's order stays
+                            for ix_, m_ in enumerate(members):
+                                if (op[2] >> ix_) & 1 and isinstance(m_, dict) and "method" not in m_ and m_.get("id") is not None and ("result" in m_ or "error" in m_):
+                                    client.new_request_stream(str(m_["id"]))
+                                    flags["per_request_stream_registered"] = True
                         kinds = _kinds(members)
                         if mode_changed_since_batch:
                             flags["batch_after_mode_change"] = True
@@ -397,6 +404,7 @@ _op = st.one_of(
     st.tuples(st.just("single"), st.integers(0, 4)).map(list),
     st.tuples(st.just("batch"), st.lists(_member_spec, max_size=4)).map(list),
     st.tuples(st.just("batch"), st.lists(_member_spec, max_size=4)).map(list),
+    st.tuples(st.just("batch"), st.lists(_member_spec, min_size=2, max_size=5), st.integers(1, 31)).map(list),
 )
 
 
@@ -443,6 +451,16 @@ def job_matrix(col: Collector, seed: int, tier: str) -> None:
             for sub in ([["batch", [["v", 0]]]], [["single", 1], ["batch", [["v", 0], ["i", 0]]], ["batch", []]]):
                 case = {"ops": [["version", vi], ["stalled", k, sub], ["batch", [["v", 2]]]]}
                 col.record(case, check(case))
+    # batches in which answered ids have per-request streams registered: every order of 4 members x every registration subset
+    import itertools as _it
+
+    four = [["v", 0], ["v", 2], ["v", 4], ["v", 1]]
+    for vi in (0, 2, 3, 1):
+        for perm in _it.permutations(four):
+            for reg in (1, 2, 4, 8, 3, 5, 9, 15):
+                case = {"ops": [["version", vi], ["batch", [list(x) for x in perm], reg], ["single", 1]]}
+                col.record(case, check(case))
+    col.exhaustive_parts.append("4 versions x all orders of a 4-member batch (2 results, 1 error, 1 notification) x 8 subsets of answered ids with a per-request stream registered")
     col.exhaustive_parts.append(f"{len(VERSIONS)} versions x {len(shapes)} batch shapes (<=2 members over 4 member kinds), each followed by a version change and the same batch; {len(VERSIONS)} versions x 6 backlog sizes (0..130 queued messages behind a blocked stdin) x 2 inbound line sequences")
 
 
